@@ -87,6 +87,13 @@ CHECKS.update({
         design='4/C15'),
 })
 
+CHECKS.update({
+    'C19': dict(level='other', technique='path-sensitive abstract interpretation (may-mode with branch refinement, cell refinement of the generator range): range proof',
+        text=('Every path of the three Standard samplers returns an encoding in [0, ONE) - a real posit p with 0 <= p < 1 - and reaches no failing assertion, for every value gen_range can return '
+              '(rand contract trusted). P32E2 uses an interval summary of exact subtraction (assumes C01). A failing proof is turned into a definite witness by pinning the generator.'),
+        design='4/C19'),
+})
+
 NOT_APPLICABLE = {
 }
 
